@@ -37,11 +37,17 @@ MODES = ["strict", "warn", "lax"]
 _envs: dict[tuple, Any] = {}
 
 
-def env_for(mode: str, extra: bool, flags: bool):
-    k = (mode, extra, flags)
+GENEROUS_LIMITS = {"output_stream_limit": 50_000_000, "loop_iteration_limit": 5_000_000, "local_namespace_limit": 500_000_000}
+
+
+def env_for(mode: str, extra: bool, flags: bool, limited: bool = False):
+    k = (mode, extra, flags, limited)
     e = _envs.get(k)
     if e is None:
         cfg: dict[str, Any] = {"mode": mode, "extra": extra}
+        if limited:
+            # resource limits that nothing here comes near: the accounting code runs, the limits never bite
+            cfg["limits"] = dict(GENEROUS_LIMITS)
         if flags:
             cfg["flags"] = {"ternary_expressions": True, "logical_not_operator": True, "logical_parentheses": True}
         from liquid import DictLoader
@@ -76,7 +82,7 @@ def sig_for(exc: BaseException, stage: str) -> str:
 
 def judge(ctx: core.Ctx, case: dict[str, Any]) -> None:
     mode = case.get("mode", "strict")
-    env = env_for(mode, case.get("extra", True), case.get("flags", False))
+    env = env_for(mode, case.get("extra", True), case.get("flags", False), case.get("limited", False))
     data = V.dec(case.get("data", {"$": "dict", "v": {}}))
     src = case["source"]
     with drv.Warnings():
@@ -358,6 +364,13 @@ def cases(ctx: core.Ctx):
             if k % ctx.nshards != ctx.shard:
                 continue
             yield {"kind": "engine-drop", "source": wrapper.replace("@", u.replace("D", dname)), "data": V.enc(drop_data), "mode": MODES[k % 3], "extra": True, "flags": True, "async": k % 5 == 0}
+    hostile_strings = [v for v in V.hostile_pool() if isinstance(v, str)] + [[v] for v in V.hostile_pool() if isinstance(v, str)][:12]
+    for hv in hostile_strings:
+        for src in ("{{ l }}", "{% capture c %}{{ l }}{% endcapture %}{{ c | size }}", "{% assign a = l | append: l %}{{ a }}", "{% for ch in l %}{{ ch }}{% endfor %}", "{% ifchanged %}{{ l }}{% endifchanged %}",
+                    "{% cycle l, l %}", "{% echo l | upcase %}", "{% render 'p', v: l %}", "{% tablerow x in l %}{{ x }}{% endtablerow %}", "{{ l | join: l }}"):
+            k += 1
+            if k % ctx.nshards == ctx.shard:
+                yield {"kind": "limited-env", "source": src, "data": V.enc({"l": hv}), "mode": MODES[k % 3], "extra": True, "limited": True, "async": k % 4 == 0}
     for ds in DATE_STRINGS:
         for fmt in ("'%Y'", "'%s'", "f", "'%'"):
             k += 1
@@ -427,7 +440,9 @@ def cases(ctx: core.Ctx):
     n = ctx.budget(50000, 3_000_000)
     for i in range(n):
         r = rng.random()
-        if r < 0.45:
+        if i % 10 == 9:
+            yield dict(gen_filter_case(rng, fnames, pool) if i % 20 == 9 else gen_random_case(rng), limited=True)
+        elif r < 0.45:
             yield gen_filter_case(rng, fnames, pool)
         elif r < 0.65:
             yield gen_tagarg_case(rng, pool)
